@@ -815,6 +815,25 @@ def rule_bottomup(ctx):
     good = ctx.base_call_bbs(ret) == {xc.bb} and len(ret) == 1
     R.ob('BU-exec-ret', key, good, 'execute-and-schedule returns the output of the execution' if good else 'returned value: %s' % es.describe_origins(ret), ctx.where(es), props=('C03', 'C17'))
 
+    # who may queue a task: every Queue::add in the core sits behind a negative verdict of a dependency check in its function
+    # ("executed only if one of its recorded dependencies is inconsistent"); an unconditional add executes unaffected tasks
+    n_add = 0
+    for ab in F.bodies.values():
+        if ab.crate != 'pie' or ab.is_test_code() or ab.id == q_add.id:
+            continue
+        adds_ = _queue_adds(ctx, ab, q_add)
+        if not adds_:
+            continue
+        vcs_ = ab.find_calls(lambda c: c.qname in (VERDICT_BU_RES, VERDICT_BU_TASK))
+        vg_ = verdict_guards(ctx, ab, vcs_)
+        negs_ = {n_ for n_, k_ in vg_.items() if k_.startswith('neg')}
+        seen_ = ab.reach([0], avoid=ctx.both(ctx.infeasible(ab), lambda n_: n_ in negs_))
+        for a in adds_:
+            n_add += 1
+            ok_ = bool(negs_) and a.bb not in seen_
+            R.ob('BU-add-guarded', '%s#%d' % (ab.path, adds_.index(a)), ok_, 'a task is queued only after one of its dependencies was reported inconsistent (or its check failed)' if ok_
+                 else 'a task can be queued without any of its dependencies having been reported inconsistent: it is executed although it is not affected', ctx.where(ab, a.bb), props=('C04',))
+    R.floor('BU-add-guarded', 'sites that queue a task', n_add, 2, props=('C04',))
     # S3 / X2 in try_schedule
     ts = bu['try_sched']
     key = ts.path
